@@ -330,6 +330,11 @@ class RunMonitor(H.NullMonitor):
                 self.stats["instants_full"] = self.stats.get("instants_full", 0) + 1
 
     def on_worker_op(self, worker, op, args, exc):
+        self._on_worker_op(worker, op, args, exc)
+        for e in self.extra:
+            e.on_worker_op(worker, op, args, exc)
+
+    def _on_worker_op(self, worker, op, args, exc):
         ws = self.workers.get(id(worker))
         if ws is None:
             return  # a scheduler's private copy
